@@ -115,7 +115,17 @@ func (_this *Session) GetBuilderGeneratorForType(dstType reflect.Type) BuilderGe
 		return storedBuilderGenerator.(BuilderGenerator)
 	}
 
+	generated := false
+	defer func() {
+		if !generated {
+			// The generator panicked (unsupported type). Don't leave the placeholder
+			// behind: anyone calling it would wait forever.
+			_this.builderGenerators.Delete(dstType)
+			wg.Done()
+		}
+	}()
 	builderGenerator = _this.defaultBuilderGeneratorForType(dstType)
+	generated = true
 	wg.Done()
 	_this.builderGenerators.Store(dstType, builderGenerator)
 	return builderGenerator
